@@ -312,10 +312,11 @@ Proof.
   intros IV LP D NF EI ES NU. pose proof IV as (I & NR & PB & NW & CL).
   unfold istep in EI. unfold sstep in ES. cbn [s_closed abs_h] in ES.
   destruct (i_closed h) eqn:C.
-  { injection EI as <- <- <-. injection ES as <- <- <-.
-    destruct (CL eq_refl) as (P0 & _).
+  { destruct (CL eq_refl) as (P0 & RB0).
+    assert (EI2 : (disk, h, RRaise) = (d', h', r)) by (destruct o; try exact EI; rewrite RB0 in EI; exact EI).
+    injection EI2 as <- <- <-. injection ES as <- <- <-.
     split; [exact IV|]. split; [intros _; exact P0|]. split; [reflexivity|]. split; [reflexivity|left; reflexivity]. }
-  destruct o as [fs|k|ss|w off| |m size|]; cbn [s_rd s_wr s_app s_pos abs_h] in ES.
+  destruct o as [fs|k|k|ss|w off| |m size|]; cbn [s_rd s_wr s_app s_pos abs_h] in ES.
   - (* read *)
     destruct (i_rd h) eqn:RD; cbn [negb] in EI, ES.
     2:{ injection EI as <- <- <-. injection ES as <- <- <-. cbn in D. destruct (is_LWrite l) eqn:LW; [discriminate|].
@@ -344,6 +345,27 @@ Proof.
     2:{ injection EI as <- <- <-. injection ES as <- <- <-. cbn in D. destruct (is_LWrite l) eqn:LW; [discriminate|].
         injection D as <-. split; [exact IV|]. split; [intros _; apply LP; reflexivity|].
         split; [reflexivity|]. split; [reflexivity|left; reflexivity]. }
+    cbn in D. destruct (is_LWrite l) eqn:LW; [discriminate|]. injection D as <-.
+    pose proof (LP eq_refl) as P0.
+    pose proof (abs_view_nopending disk h P0) as AV.
+    assert (AC : abs_content disk h = disk) by (unfold abs_content; rewrite AV; reflexivity).
+    assert (AP : abs_pos disk h = pos h) by (unfold abs_pos; rewrite AV; reflexivity).
+    rewrite AC, AP in ES.
+    destruct (ilines ch disk h k []) as [h1 r1] eqn:E1. injection EI as <- <- <-.
+    destruct (s_lines true disk (pos h) k []) as [l2 p2] eqn:E2. injection ES as <- <- <-.
+    destruct (ilines_spec disk k h [] h1 r1 l2 p2 I E1 E2) as (-> & I1 & P1 & (F1 & F2 & F3 & F4 & F5)).
+    assert (P1' : pending h1 = []) by (unfold pending in *; rewrite F1; exact P0).
+    pose proof (abs_view_nopending disk h1 P1') as AV1.
+    split.
+    { unfold Inv. split; [exact I1|]. split; [rewrite F2, RD; discriminate|].
+      split; [rewrite P1'; congruence|]. split; [rewrite F3, F1; exact NW|]. rewrite F5, C. discriminate. }
+    split; [intros _; exact P1'|].
+    split; [unfold abs_content; rewrite AV1; reflexivity|].
+    split; [|left; reflexivity].
+    unfold abs_h, s_setpos, abs_pos. rewrite AV1. cbn. rewrite P1, F2, F3, F4, F5, RD, C. reflexivity.
+  - (* a step of an earlier iterator *)
+    destruct (i_rd h) eqn:RD; cbn [negb] in EI, ES.
+    2:{ injection ES as _ _ <-. congruence. }
     cbn in D. destruct (is_LWrite l) eqn:LW; [discriminate|]. injection D as <-.
     pose proof (LP eq_refl) as P0.
     pose proof (abs_view_nopending disk h P0) as AV.
